@@ -14,10 +14,10 @@ func init() {
 	Register(&Prop{
 		Meta: core.Meta{
 			ID: "C36", Title: "Configuration reload converges to the new configuration", Level: "other",
-			Technique:  "reader/comparator field coverage (R-DEP): the configuration fields the session constructor reads versus the fields the restart decision compares or the reload applies in place; shape of every comparison (same field on both sides, no guard on the old side only); must-pass-through of the in-place policy replacement; set-difference structure of the peer diff",
-			DesignRef:  "DESIGN.md §4 C36",
-			Decided:    "(1) every field of PeerConfig / AddressFamilyConfig that newPeer (and the capability builders it calls) reads is compared by NeedsRestart, or applied in place by the reload (the two filter chains), or is the session key, or is derived from a compared field (table with reasons, derivations re-checked); (2) every comparison in NeedsRestart compares one field with the same field of the other configuration, and none is guarded by a condition on the old configuration alone; (3) when no restart is needed the reload replaces both filter chains on every non-error path; (4) every configured neighbor is either added or reconfigured, and every running peer that is not in the new configuration is disposed.",
-			NotDecided: "that a restarted session really comes up with the new settings (C23/C22), group-to-neighbor inheritance values (config loading), and sequences of reloads beyond the per-reload invariants above.",
+			Technique:   "reader/comparator field coverage (R-DEP): the configuration fields the session constructor reads versus the fields the restart decision compares or the reload applies in place; shape of every comparison (same field on both sides, no guard on the old side only); must-pass-through of the in-place policy replacement; set-difference structure of the peer diff",
+			DesignRef:   "DESIGN.md §4 C36",
+			Decided:     "(1) every field of PeerConfig / AddressFamilyConfig that newPeer (and the capability builders it calls) reads is compared by NeedsRestart, or applied in place by the reload (the two filter chains), or is the session key, or is derived from a compared field (table with reasons, derivations re-checked); (2) every comparison in NeedsRestart compares one field with the same field of the other configuration, and none is guarded by a condition on the old configuration alone; (3) when no restart is needed the reload replaces both filter chains on every non-error path; (4) every configured neighbor is either added or reconfigured, and every running peer that is not in the new configuration is disposed.",
+			NotDecided:  "that a restarted session really comes up with the new settings (C23/C22), group-to-neighbor inheritance values (config loading), and sequences of reloads beyond the per-reload invariants above.",
 			TrustedBase: stdTrusted,
 		},
 		Run: runC36,
